@@ -306,6 +306,9 @@ func (f *Frame) builtin(ns *nodeState, x *ssa.Call, name string, args []Val) []V
 		}
 		ex.fail("len of %s", t.Sort)
 	case "append":
+		if args[0].Shared {
+			ex.fail("alias discipline: append to a slice that was obtained by re-slicing another slice (its backing array may still be visible through other slices, e.g. a recycled buffer)")
+		}
 		s := ex.viewOf(ns.st, args[0])
 		if len(args) == 1 {
 			return []Val{{T: s}}
@@ -434,7 +437,7 @@ var inlineExternals = map[string]bool{
 }
 
 var pureExternalPrefixes = []string{"fmt.Sprintf", "fmt.Sprint", "fmt.Errorf", "fmt.Fprintf", "fmt.Printf", "fmt.Println", "log.Printf", "log.Println", "log.Print",
-	"(*log.Logger).", "strconv.Itoa", "strings.Repeat"}
+	"(*log.Logger).", "strconv.Itoa", "strings.Repeat", "slices.Contains", "slices.Index"}
 
 type extHandler func(f *Frame, ns *nodeState, x *ssa.Call, fn *ssa.Function, args []Val) []Val
 
